@@ -8,13 +8,13 @@ open Darsia
 
 def fn (l : List Rat) : Nat → Rat := fun k => l.getD k 0
 
-def parseMethod : String → Option Gen.Method
+def parseMethod : String → Option Gen.Transport.Method
   | "newton" => some .newton | "bregman" => some .bregman | "cv2emd" => some .cv2emd
   | "newtonCap" => some .newtonCap | "bregmanUpper" => some .bregmanUpper | "cv2emdUpper" => some .cv2emdUpper
   | "sinkhorn" => some .sinkhorn | "emd" => some .emd | "empty" => some .empty
   | _ => none
 
-def showBackend : Gen.Backend → String
+def showBackend : Gen.Transport.Backend → String
   | .newton => "newton" | .bregman => "bregman" | .emd => "emd"
 
 def handle : List String → Option String
@@ -61,7 +61,7 @@ def handle : List String → Option String
     pure (showRat (emdSingleSq v dy dx dr dc))
   | ["dispatch", m] => do
     let m ← parseMethod m
-    pure (match Gen.dispatch m with | .ok b => showBackend b | .error e => e.show)
+    pure (match Gen.Transport.dispatch m with | .ok b => showBackend b | .error e => e.show)
   | _ => none
 
 def main : IO Unit := runDriver handle
